@@ -191,3 +191,8 @@ impl From<OwnedText> for MatchedText<'static> {
         }
     }
 }
+
+#[cfg(all(kani, olson_sean_k_wax_verif))]
+mod verif_kani {
+    include!(concat!(env!("WAX_VERIF_DIR"), "/kani/capture.rs"));
+}
